@@ -142,11 +142,25 @@ class ActivationTable(object):
         return out
 
 
+def num(x):
+    """The number *x* holds, exactly, as an mpf: Python int / float, numpy integer of any width (as the
+    integer it is) or numpy float (a float32 widens to double without rounding).  The chain solution is
+    evaluated at the value that was passed, whatever type carried it."""
+    if isinstance(x, (int, float)) or isinstance(x, type(UCI)):
+        return mpf(x)
+    import numpy as np
+    if isinstance(x, np.integer):
+        return mpf(int(x))
+    if isinstance(x, np.floating):
+        return mpf(float(x))
+    return mpf(x)
+
+
 class Solution(object):
     __slots__ = ['row', 'A0', 'lam', 'k1', 'k2', 'lam_parent', 'kind', 'U', 'V', 'kappa', 'root', 'dps']
 
     def at_rest(self, T):
-        return self.A0 * M.exp(-self.lam * mpf(T))
+        return self.A0 * M.exp(-self.lam * num(T))
 
 
 def _separate(nodes):
@@ -161,7 +175,7 @@ def _separate(nodes):
 
 
 def epithermal_factor(Cd_ratio):
-    return 1 / mpf(Cd_ratio) if Cd_ratio >= 1 else mpf(0)
+    return 1 / num(Cd_ratio) if Cd_ratio >= 1 else mpf(0)
 
 
 def rates(row, fluence, Cd_ratio, fast_ratio):
@@ -169,8 +183,8 @@ def rates(row, fluence, Cd_ratio, fast_ratio):
     erf = epithermal_factor(Cd_ratio)
     xs1 = mpf(row.thermalXS) + erf * mpf(row.resonance)
     xs2 = mpf(row.thermalXS_parent) + erf * mpf(row.resonance_parent)
-    flux = mpf(fluence) / mpf(fast_ratio) if row.fast else mpf(fluence)
-    return flux, xs1, flux * xs1 * BARN_H, mpf(fluence) * xs2 * BARN_H
+    flux = num(fluence) / num(fast_ratio) if row.fast else num(fluence)
+    return flux, xs1, flux * xs1 * BARN_H, num(fluence) * xs2 * BARN_H
 
 
 def omitted(row, fast_ratio):
@@ -191,9 +205,9 @@ def solve(row, mass, fluence, Cd_ratio, fast_ratio, exposure, _dps=None):
         s.row = row
         s.dps = _dps
         flux, xs1, k1, k2 = rates(row, fluence, Cd_ratio, fast_ratio)
-        t = mpf(exposure)
+        t = num(exposure)
         lam = M.log(2) / mpf(row.Thalf_hrs)
-        root = flux * xs1 * mpf('1e-24') * mpf(mass) / mpf(row.A) * UCI
+        root = flux * xs1 * mpf('1e-24') * num(mass) / mpf(row.A) * UCI
         s.lam, s.k1, s.k2, s.root = lam, k1, k2, root
         s.lam_parent = None
         s.U = s.V = None
